@@ -223,7 +223,7 @@ def rule_inloop(ctx):
 
 # bytes from the server are turned into text before the per-message containment: the codec must be total and
 # independent of where a read ends
-IMPORTS = [('C02', 'C02.DECODE'), ('C08', 'C08.VALUE'), ('C02', 'C02.FIND')]  # C08.VALUE: every legal spelling of a base64 payload decodes (wrapped, indented)
+IMPORTS = [('C02', 'C02.DECODE'), ('C08', 'C08.VALUE'), ('C02', 'C02.FIND'), ('C10', 'C10.MIXED'), ('C10', 'C10.ACCEPT')]  # C08.VALUE: every legal spelling of a base64 payload decodes (wrapped, indented)
 
 RULES = [
     ("C15.MIRROR", rule_mirror, "catalogue of def/set/del streams x 5 kinds: abstract mirror equals the reference interpretation; nothing raises"),
